@@ -32,9 +32,19 @@ SPEC("pane.classes", "_process.bounded", bounded=True,
               (lambda cls, expect, result: sig_names(cls) == [f.name for f in cls.__pane_info__.fields if f.init], ["C17"], "signature-order"),
               (lambda cls, expect, result: all(type_equiv(expect.get("types", {}).get(f.name, f.type), f.type) for f in cls.__pane_info__.fields), ["C17"], "substituted-types"),
               (lambda cls, expect, result: all(getattr(cls.__pane_info__.opts, k) == v for k, v in expect.get("opts", {}).items()), ["C17"], "inherited-options"),
-              (lambda cls, expect, result: all(ok_value(cls, v, good) for v, good in expect.get("values", [])), ["C17"], "enforced-types")],
+              (lambda cls, expect, result: all(ok_value(cls, v, good) for v, good in expect.get("values", [])), ["C17"], "enforced-types"),
+              # positional bounds: required = positional constructor fields without a default OR a default factory; total = all of them
+              (lambda cls, expect, result: tuple(cls.__pane_info__.pos_args) == expected_pos_args(cls), ["C15", "C17"], "positional-bounds")],
+     no_raise=["C15", "C17", "C14"],
      note="bounded: a pool of class hierarchies (override in place, keyword-only reordering, generic binding/forwarding/re-declaration, "
           "mixins, option inheritance)")
+
+
+def expected_pos_args(cls):
+    from pane.field import _MISSING
+    pos = [f for f in cls.__pane_info__.fields if f.init and not f.kw_only]
+    required = [f for f in pos if f.default is _MISSING and f.default_factory is None]
+    return (len(required), len(pos))
 
 
 def ok_value(cls, v, good):
@@ -49,7 +59,8 @@ def ok_value(cls, v, good):
 SPEC("pane.classes", "_make_subclass.bounded", bounded=True,
      ensures=[(lambda kind, result: type_equiv(result, {"forwarded": str, "explicit-generic": str, "partially-bound": (int, str),
                                                         "swapped": (U_, T_, int, str), "grandchild": (U_, T_),
-                                                        "rebound-same-var": (T_, float, int), "nested-generic": int}[kind]), ["C17"], "reparam")],
+                                                        "rebound-same-var": (T_, float, int), "nested-typevar": (List[str], int),
+                                                        "nested-generic": int}[kind]), ["C17"], "reparam")],
      no_raise=["C17"],
      note="bounded: three spellings of re-parameterised generic dataclasses (typing.Generic bookkeeping is outside the symbolic engine)")
 
@@ -117,3 +128,11 @@ SPEC("pane.classes", "construct.bounded", bounded=True,
               (lambda cls, args, kwargs, result: implies(result[0] == "ok" and expected_construct(cls, args, kwargs)[0] == "ok",
                                                          getattr(result[1], "__pane_set__") == expected_construct(cls, args, kwargs)[2]), ["C14"], "set-record")],
      note="bounded: pool dataclasses x argument lists (typed objects inside containers, equal-but-differently-typed values, wrong kinds)")
+
+
+# ---- C14, bounded: the data paths build what the constructor builds (same values, same set-field record, fresh defaults) ------------
+SPEC("pane.classes", "data_paths.bounded", bounded=True,
+     ensures=[(lambda cls, data, result: result["same_value"], ["C14", "C15"], "equals-constructor"),
+              (lambda cls, data, result: result["record"] == result["expected_record"], ["C14"], "set-record"),
+              (lambda cls, data, result: result["fresh_defaults"], ["C14"], "fresh-defaults")],
+     note="bounded: pool dataclasses x every pool value their from_data accepts (mapping and sequence layouts, aliases, renamed keys)")
